@@ -285,7 +285,7 @@ def soup_lexemes():
     for u in LEX["unit"].values():
         out += u[:2]
     out += ["1.", "5.", "28.", "29.", "30.", "31.", "1st", "2nd", "3rd", "29th", "31st", "2019", "2020", "19", "99", "31.04.", "29.2.",
-            "30.1.", "31.4.2020", "29.2.2019", "29.02.20", "1.1.2018", "2/30", "7-4", "8", "8:30pm", "12am", "12:00 pm", "0:00", "23:59",
+            "30.1.", "31.4.2020", "29.2.2019", "29.02.20", "1.1.2018", "29.2.1900", "1900", "29.", "feb", "29. feb", "2/30", "7-4", "8", "8:30pm", "12am", "12:00 pm", "0:00", "23:59",
             "9", "5", "23:30", "3:35", "13:00am", "2030", "2018", "0800 uhr", "1215", "17 uhr", "3h", "8 o'clock", "0 days", "3 days",
             "2 weeks", "1 month", "48 hours", "90 minutes", "1 night", "99999999999 days", "100000 months", "-", "/", "#tag", "#a-b_c",
             "xyzzy", ",", ";", "(", ")", "–", " ", "8 8", "31.12.9999", "1.1.1", "00", "0", "000", "24:00", "24", "60", "31/12",
